@@ -502,23 +502,26 @@ class RateModel:
                 _, f = self.pkg.resolve(cls, name)
                 return self.specialised(cls, f) if f is not None else None
             dfile = self.pkg.cls(dc).file
-
-            def func_resolver(name):
-                """a small module-level helper function of the class's module (or imported from a package module) called by its bare name"""
-                if name in no_inline or name == "_fill_list":
-                    return None
-                if "." in name:
-                    # "<Class>.<method>": a method of a helper class of the same module (a record type with methods)
-                    cname, mname = name.split(".", 1)
-                    ci = self.pkg.classes.get(cname)
-                    return ci.methods.get(mname) if ci is not None and ci.file == dfile else None
-                f = self.pkg.functions.get((dfile, name))
-                if f is None:
-                    tgt = self.imported_from(dfile, name)
-                    f = self.pkg.functions.get(tgt) if tgt is not None else None
-                return f
+            func_resolver = self.func_resolver(dfile, no_inline | {"_fill_list"})
             self._flows[key] = Flow(fn, dfile, keep_arms=True, resolver=resolver, consts=self.module_consts(dfile), raise_arms=True, func_resolver=func_resolver)
         return dc, fn, self._flows[key]
+
+    def func_resolver(self, dfile: str, no_inline=frozenset()):
+        """resolver for Flow(func_resolver=..): a small module-level helper function of module `dfile` (or imported there from a package
+        module) called by its bare name;  "<Class>.<method>": a method of a helper class of the same module (a record type with methods)"""
+        def resolve(name):
+            if name in no_inline:
+                return None
+            if "." in name:
+                cname, mname = name.split(".", 1)
+                ci = self.pkg.classes.get(cname)
+                return ci.methods.get(mname) if ci is not None and ci.file == dfile else None
+            f = self.pkg.functions.get((dfile, name))
+            if f is None:
+                tgt = self.imported_from(dfile, name)
+                f = self.pkg.functions.get(tgt) if tgt is not None else None
+            return f
+        return resolve
 
     def variants(self, cls: str, meth: str = "rateexpr", enumerate_conditions=True) -> list:
         dc, fn, fl = self.flow(cls, meth)
